@@ -98,8 +98,14 @@ fn variants(s: &mut Src, file: &str, idx: usize) -> (String, String) {
     let name = format!("T{}", idx);
     let other = if idx == 1 { "./m2" } else { "./m1" };
     let other_name = if idx == 1 { "T2" } else { "T1" };
-    let v = s.below(7);
+    let v = s.below(13);
     let (label, text) = match v {
+        7 => ("empty", String::new()),
+        8 => ("whitespace_only", "  \n\t\n".to_string()),
+        9 => ("comment_only", format!("// {} used to live here\n/* nothing else */\n", name)),
+        10 => ("jsdoc1", format!("/** A documented payload ({}). */\nexport type {} = {{\n  /** the a field */\n  a: string;\n}};\n", file, name)),
+        11 => ("jsdoc2", format!("/**\n * Another description.\n */\nexport interface {} {{\n  /** count of things */\n  n: number;\n  /** optional label */\n  label?: string;\n}}\n", name)),
+        12 => ("value_and_type", format!("export const k{} = {{ tag: \"{}\", n: 1 }} as const;\nexport type {} = typeof k{};\n", idx, file, name, idx)),
         6 => ("valid4_imports_late_file", format!("import {{ Late }} from \"./late\";\nexport type {} = {{ late: Late }};\n", name)),
         0 => ("valid1", format!("export type {} = {{ a: string; k: \"{}\" }};\n", name, file)),
         1 => ("valid2", format!("export type {} = {{ a: number; extra?: boolean }};\nexport type Unused{} = string;\n", name, idx)),
@@ -113,8 +119,10 @@ fn variants(s: &mut Src, file: &str, idx: usize) -> (String, String) {
 
 fn entry_variants(s: &mut Src, nmods: usize) -> (String, String) {
     let imports: String = (1..=nmods).map(|i| format!("import {{ T{} }} from \"./m{}\";\n", i, i)).collect();
-    let v = s.below(5);
+    let v = s.below(7);
     match v {
+        5 => ("jsdoc".into(), format!("{}/** the local wrapper */\ntype Local = {{\n  /** wrapped */\n  x: T1;\n}};\nparse.buildParsers<{{ A: Local }}>();\n", imports)),
+        6 => ("empty".into(), String::new()),
         0 => ("valid1".into(), format!("{}parse.buildParsers<{{ A: T1; B: {} }}>();\n", imports, if nmods >= 2 { "T2" } else { "string" })),
         1 => ("valid2".into(), format!("{}type Local = {{ x: T1 }};\nparse.buildParsers<{{ A: Local[] }}>();\n", imports)),
         2 => ("unresolvable".into(), format!("{}parse.buildParsers<{{ A: T1; Z: Nope }}>();\n", imports)),
@@ -130,8 +138,8 @@ impl Check for C14 {
     }
     fn cases(&self, tier: Tier) -> u32 {
         match tier {
-            Tier::Quick => 1500,
-            Tier::Thorough => 60_000,
+            Tier::Quick => 8000,
+            Tier::Thorough => 200_000,
         }
     }
     fn stream_len(&self) -> usize {
